@@ -33,6 +33,17 @@ Lemma memfs_progress env (s0 : mfs) (progs : list (list op)) sched :
   (exists t th, nth_error (thr _ _ _ c) t = Some th /\ unfinished _ _ th) -> exists t c', move _ _ _ (mstep env) c t = Some c'.
 Proof. exact (progress _ _ _ (mstep env) progs s0 sched). Qed.
 
+Lemma memfs_lin_complete env (s0 : mfs) (progs : list (list op)) sched :
+  let c := run _ _ _ (mstep env) (init _ _ _ s0 progs) sched in
+  (forall t th, nth_error (thr _ _ _ c) t = Some th -> todo _ _ th = [] /\ ph _ _ th = Idle _) ->
+  forall t i o, nth_error (nth t progs []) i = Some o -> exists x, In x (lin _ _ _ c) /\ c_t _ _ x = t /\ c_i _ _ x = i /\ c_o _ _ x = o.
+Proof. exact (lin_complete _ _ _ (mstep env) progs s0 sched). Qed.
+
+Lemma memfs_lin_once env (s0 : mfs) (progs : list (list op)) sched x y :
+  let c := run _ _ _ (mstep env) (init _ _ _ s0 progs) sched in
+  In x (lin _ _ _ c) -> In y (lin _ _ _ c) -> c_t _ _ x = c_t _ _ y -> c_i _ _ x = c_i _ _ y -> x = y.
+Proof. exact (lin_once _ _ _ (mstep env) progs s0 sched x y). Qed.
+
 Lemma memfs_cs_no_panic env m o : snd (mstep env m o) <> Panic.
 Proof. unfold mstep. pose proof (step_no_panic env m o). destruct (step env m o) as [[m' r]| |]; cbn; congruence. Qed.
 
